@@ -12,7 +12,6 @@ from typing import (
     List,
     Optional,
     Sequence,
-    Set,
     Tuple,
 )
 
@@ -433,8 +432,13 @@ class AhocorasickTokenizer(Tokenizer):
             if e.strings and e.flags & re.I
             for s in e.strings
         )
+        # Position of each extractor in self.extractors, to run the selected
+        # extractors in the same order as the base Tokenizer would
+        self.extractor_order = {
+            id(e): i for i, e in enumerate(self.extractors)
+        }
 
-    def get_extractors(self, text: str) -> Set[TokenExtractor]:
+    def get_extractors(self, text: str) -> List[TokenExtractor]:
         """Override get_extractors() to filter out extractors
         that can't possibly match."""
         unique_extractors = set(self.unfiltered_extractors)
@@ -442,7 +446,11 @@ class AhocorasickTokenizer(Tokenizer):
             unique_extractors.update(extractors)
         for _, extractors in self.case_insensitive_filter.iter(text.lower()):
             unique_extractors.update(extractors)
-        return unique_extractors
+        # Set iteration order depends on the process's hash seed; tokens that
+        # tie on (start, end) are kept in extractor order, so make it stable
+        return sorted(
+            unique_extractors, key=lambda e: self.extractor_order[id(e)]
+        )
 
     @staticmethod
     def make_ahocorasick_filter(
